@@ -71,3 +71,30 @@ Example count_only_rule_refuted :
                {| pkey := 2; lkey := 1; eid := 2; elen := 3 |}; {| pkey := 2; lkey := 2; eid := 3; elen := 3 |} ] in
   length (group_of evs 1%Z) = length (levels evs) /\ group_ok evs 1%Z = false /\ group_ok evs 2%Z = true.
 Proof. vm_compute. repeat split. Qed.
+
+(* Result._remove - the row-level mechanism of where_fin (three nested bisections per listed evaluation, starting at a moving
+   position): for EVERY interactions table whose id columns are sorted lexicographically (the Result constructor sorts them; the
+   harness checks it on every generated Result), EVERY list of evaluations to drop - in any order, with repetitions and with ids
+   that do not occur - and EVERY n, the selected row numbers are, in increasing order, exactly the rows of evaluations that are
+   not listed plus the first n rows of listed evaluations longer than n.  So no surviving row is lost, moved or duplicated. *)
+From Coba Require C18.ModelRemove C18.ProofsRemove.
+From Coq Require Sorted.
+Theorem remove_selects_exactly_the_surviving_rows : forall rows ids n,
+  Sorted.StronglySorted (fun a b => ModelRemove.lex_leb a b = true) rows ->
+  ModelRemove.remove rows ids n = filter (ModelRemove.keep rows ids n) (seq 0 (length rows)).
+Proof. exact ProofsRemove.remove_correct. Qed.
+Print Assumptions remove_selects_exactly_the_surviving_rows.
+(* one round of the loop: the nested bisections return the block of the evaluation counted lexicographically, or report it absent *)
+Theorem remove_bisections_find_the_block : forall rows t loc,
+  Sorted.StronglySorted (fun a b => ModelRemove.lex_leb a b = true) rows -> loc <= length rows ->
+  let seg := skipn loc rows in
+  let a := ModelRemove.cnt (fun r => ModelRemove.lex_ltb r t) seg in let b := ModelRemove.cnt (fun r => ModelRemove.tri_eqb r t) seg in
+  ModelRemove.find3 rows t loc = if b =? 0 then None else Some (loc + a, loc + a + b).
+Proof. exact ProofsRemove.find3_spec. Qed.
+Print Assumptions remove_bisections_find_the_block.
+Example remove_example :
+  let rows := [(0,0,0); (0,0,0); (0,0,0); (0,1,0); (0,1,0); (1,0,0); (1,0,1); (1,0,1); (1,0,1); (1,0,1); (2,0,0)]%Z in
+  ModelRemove.remove rows [(1,0,1); (0,1,0); (5,5,5); (0,1,0)]%Z 0 = [0; 1; 2; 5; 10] /\
+  ModelRemove.remove rows [(1,0,1); (0,1,0); (0,0,0)]%Z 3 = [5; 6; 7; 8; 10] /\
+  Sorted.StronglySorted (fun a b => ModelRemove.lex_leb a b = true) rows.
+Proof. split; [vm_compute; reflexivity|]. split; [vm_compute; reflexivity|]. repeat constructor. Qed.
